@@ -69,6 +69,23 @@ func mkEvent(rec int, padToWire bool) *eb.Event {
 	return &eb.Event{Type: ty, Data: mkData(rec, pad), Timestamp: ts}
 }
 
+// pubRec is record number ID (>= pubBase) published through a bus on top of the store: its persisted type
+// must be EventType's name for it, its data the JSON encoding of the value (same document as mkData).
+const pubBase = 500000
+
+type pubRec struct {
+	ID  int    `json:"id"`
+	S   string `json:"s"`
+	N   []any  `json:"n"`
+	Pad string `json:"pad"`
+}
+
+func (p pubRec) EventTypeName() string { return fmt.Sprintf("pub.kind%d", p.ID%3) }
+
+func mkPub(rec int) pubRec {
+	return pubRec{ID: rec, S: strPool[rec%len(strPool)], N: []any{rec, 1.5, nil, true}}
+}
+
 // identify maps a stored event back to its record number, checking type, data and instant.
 func identify(e *eb.StoredEvent, padded bool) string {
 	var d struct {
@@ -79,6 +96,13 @@ func identify(e *eb.StoredEvent, padded bool) string {
 		return "?json"
 	}
 	want := mkEvent(d.ID, padded)
+	if d.ID >= pubBase {
+		p := mkPub(d.ID)
+		want = &eb.Event{Type: eb.EventType(p), Data: mkData(d.ID, 0), Timestamp: e.Timestamp}
+		if e.Timestamp.IsZero() || time.Since(e.Timestamp) > time.Hour || time.Since(e.Timestamp) < -time.Hour {
+			return fmt.Sprintf("?ts%d", d.ID)
+		}
+	}
 	if e.Type != want.Type {
 		return fmt.Sprintf("?type%d", d.ID)
 	}
@@ -93,6 +117,8 @@ func identify(e *eb.StoredEvent, padded bool) string {
 }
 
 type storeInst struct {
+	bus     *eb.EventBus // lazily: a bus persisting into st (op "pub")
+	pubSeen string
 	st      eb.EventStore
 	sub     eb.SubscriptionStore
 	padded  bool
@@ -287,13 +313,55 @@ func storeDomain(lines []string) []string {
 			sc.lastEvs, sc.lastNext = nil, ""
 			out = append(out, "use")
 		case "append":
-			off, err := sc.cur.st.Append(ctx, mkEvent(atoi(f[1]), sc.cur.padded))
+			// like persistEvent with a persistence timeout: every append gets its own context, which ends
+			// as soon as the call has returned (a store must not keep using it)
+			actx, acancel := context.WithCancel(ctx)
+			off, err := sc.cur.st.Append(actx, mkEvent(atoi(f[1]), sc.cur.padded))
+			acancel()
 			if err != nil {
 				out = append(out, "append err")
 			} else {
 				sc.cur.appOffs = append(sc.cur.appOffs, string(off))
 				out = append(out, "append "+string(off))
 			}
+		case "pub", "replaypub":
+			// publish through a bus built on the store (options in either order, persistence timeout set):
+			// the handler looks the log up while it runs
+			in := sc.cur
+			rec := atoi(f[1])
+			if in.bus == nil {
+				opts := []eb.Option{eb.WithStore(in.st), eb.WithPersistenceTimeout(2 * time.Second)}
+				if rec%2 == 1 {
+					opts[0], opts[1] = opts[1], opts[0]
+				}
+				in.bus = eb.New(opts...)
+				eb.Subscribe(in.bus, func(p pubRec) {
+					evs, _, err := in.st.Read(context.Background(), eb.OffsetOldest, 0)
+					if err != nil || len(evs) == 0 {
+						in.pubSeen = fmt.Sprintf("n=%d last=- err=%v", len(evs), err != nil)
+						return
+					}
+					in.pubSeen = fmt.Sprintf("n=%d last=%s", len(evs), identify(evs[len(evs)-1], in.padded))
+				})
+			}
+			in.pubSeen = "handler-not-run"
+			if f[0] == "replaypub" {
+				// the same publish, made from inside a Replay callback while the store is being read
+				called := false
+				in.bus.Replay(ctx, eb.OffsetOldest, func(*eb.StoredEvent) error {
+					called = true
+					eb.Publish(in.bus, mkPub(rec))
+					return errors.New("stop")
+				})
+				if !called {
+					out = append(out, "replaypub none")
+				} else {
+					out = append(out, "replaypub "+in.pubSeen)
+				}
+				break
+			}
+			eb.Publish(in.bus, mkPub(rec))
+			out = append(out, "pub "+in.pubSeen)
 		case "read":
 			from, ok := sc.resolveOff(f[1])
 			if !ok {
